@@ -35,9 +35,11 @@ func (r *verifBcR) sendBlockRequest(peerID p2p.ID, height int64) error {
 	r.Requests = append(r.Requests, fmt.Sprintf("%d@%s", height, peerID))
 	return nil
 }
-func (r *verifBcR) sendPeerError(err error, peerID p2p.ID) { r.PeerErrors = append(r.PeerErrors, peerID) }
+func (r *verifBcR) sendPeerError(err error, peerID p2p.ID) {
+	r.PeerErrors = append(r.PeerErrors, peerID)
+}
 func (r *verifBcR) resetStateTimer(name string, timer **time.Timer, timeout time.Duration) {}
-func (r *verifBcR) switchToConsensus()                                                    { r.Switched = true }
+func (r *verifBcR) switchToConsensus()                                                     { r.Switched = true }
 
 // VerifV1 is a real BlockchainReactor (state, stores, executor, processBlock) whose FSM talks to
 // the recording stand-in.
